@@ -20,6 +20,7 @@ FILES = {
     "internal/verifdrv/vfd/vfd.go": "vfd/vfd.go",
     "internal/verifdrv/vfd/term.go": "vfd/term.go",
     "internal/accumulation/zz_verif_accrounds_test.go": "accrounds/accrounds_test.go",
+    "internal/accumulation/zz_verif_accouter_test.go": "accrounds/accouter_test.go",
 }
 WHAT = "accumulation result depends on the schedule / differs from the Gray Paper order"
 
@@ -39,7 +40,8 @@ def select(ctx, casep):
     twice = [c for c in cases if c["twice"] and c["over12"] and not (c["large"] and c["fan"])]   # one service, two outputs in a block
     over = [c for c in cases if c["over12"] and not c["twice"] and not (c["large"] and c["fan"])]
     under = [c for c in cases if not c["over12"]]
-    quota = ((large, 3), (twice, 5), (over, 3), (under, 3)) if ctx.quick else ((large, 30), (twice, 50), (over, 35), (under, 25))
+    long = [c for c in cases if c["over63"] and not c["fan"]]     # 64..100 transfers to one receiver (long-list sort paths)
+    quota = ((long, 3), (large, 3), (twice, 4), (over, 2), (under, 2)) if ctx.quick else ((long, 30), (large, 30), (twice, 50), (over, 35), (under, 25))
     pick = []
     for pool, k in quota:
         pool = list(pool)
@@ -101,3 +103,21 @@ def run(ctx):
     ctx.cov["samples"] = [{"n": r["n"], "stf_groups": [g["count"] for g in r["stf"]], "par_u": r["par"][0]["obs"].get("u"),
                            "recorded": [[x["from"], x["tag"]] for a in r["stf"][0]["obs"].get("acc", []) for x in a["store"]][:16]} for r in recs[:3]]
     vf.validate_trace(ctx, "AccRounds_Trace", lines, shard=40, timeout=1500, heap="3g", par=3 if q else 10, what=WHAT)
+    if ctx.replay:
+        return
+    # race family (one service removes another that accumulates in the same round; a service reads another one's balance):
+    # the round's result must be the specification's function of its inputs (spec/stf/AccOuterFn.tla) for every pool size
+    racep = vf.gen_cases(ctx, "AccOuter_Gen", {"Tier": '"race"'}, timeout=600, heap="2g", tag="-race")
+    rcases = sorted((json.loads(x) for x in vf.read_lines(racep)), key=lambda c: json.dumps(c, sort_keys=True))
+    for i, c in enumerate(rcases):
+        c["n"] = i + 1
+    rcasep, rtracep = os.path.join(ctx.tmp, "race-cases.ndjson"), os.path.join(ctx.tmp, "race-trace.ndjson")
+    with open(rcasep, "w") as f:
+        for c in rcases:
+            f.write(json.dumps(c) + "\n")
+    vf.run_driver(ctx, binp, "TestAccOuter", env={"VF_CASES": rcasep, "VF_OUT": rtracep, "VF_RUNS": 48 if q else 240}, timeout=1500)
+    rlines = vf.read_lines(rtracep)
+    ctx.cov["actions"]["race_scenarios"] = len(rlines)
+    ctx.cov["evaluations"] += sum(json.loads(x)["runs"] for x in rlines)
+    vf.validate_trace(ctx, "AccOuter_Trace", rlines, shard=60, timeout=1500, heap="3g", par=3 if q else 10,
+                      what="a round's result is not the specification's function of its inputs (schedule / pool size leaks)")
